@@ -24,6 +24,12 @@ add("C15", "exploration",
     "Trusted: the per-form word counts in REF-ISA (frozen from the control store listing).",
     "DESIGN.md 3/C15")
 
+add("C09", "model_checking",
+    "explicit-state search to a fix-point over the abstract control space (micro address x instruction register), every transition computed by the real trigger_clock_edge() under the full input product; graph analysis (SCCs, longest paths, reachability) on the result",
+    "All control states reachable from reset are expanded under every combination of flags, ALU condition outputs, pending interrupt and (at IR-loading words) all 256 bytes; on the resulting graph: no all-zero word reachable, address always inside the IR[7:4] block, the only fetch-free cycles are the MUL and DIV loops, bounded fetch-free path length, exactly the documented undefined first/second bytes never complete; MUL/DIV loops terminate for all 65 536 pairs concretely.",
+    "Trusted: the hook forces exactly the sequencer-visible latches (verif_force_control); the defined-opcode sets come from REF-ISA.",
+    "DESIGN.md 3/C09")
+
 NOT_YET = {}
 
 def main():
